@@ -15,6 +15,10 @@ def dec(e):
         return int(v)
     if k == "s":
         return str(v)
+    if k == "f":
+        return float(v)
+    if k == "b":
+        return bool(v)
     if k == "t":
         return tuple(dec(x) for x in v)
     if k == "d":
@@ -76,14 +80,62 @@ def view(mdp, sid, aid, tables=True):
     return out
 
 
-def plan(mdp, sid, aid, vi):
+def plan(mdp, sid, aid, vi, planner=None):
     from msdm.algorithms.valueiteration import ValueIteration
-    r = ValueIteration(max_iterations=int(vi["max_iterations"]), max_residual=fl(vi["max_residual"])).plan_on(mdp)
+    planner = planner or ValueIteration(max_iterations=int(vi["max_iterations"]), max_residual=fl(vi["max_residual"]))
+    r = planner.plan_on(mdp)
     sl, al = list(mdp.state_list), list(mdp.action_list)
     return {"V": {str(sid[s]): fj(r.state_value[s]) for s in sl},
             "Q": {"%d,%d" % (sid[s], aid[a]): fj(r.action_value[s][a]) for s in sl for a in al},
             "pi": {"%d,%d" % (sid[s], aid[a]): fj(r.policy[s][a]) for s in sl for a in al},
             "initial_value": fj(r.initial_value), "iterations": int(r.iterations), "converged": bool(r.converged)}
+
+
+_TABLE_CLS = []
+
+
+def get_table_mdp_class():
+    """ONE class per process, tables on the instance: successive cases (same labels, different numbers) are
+    different objects of the same class"""
+    if _TABLE_CLS:
+        return _TABLE_CLS[0]
+    from msdm.core.mdp.tabularmdp import TabularMarkovDecisionProcess
+
+    class TableMDP(TabularMarkovDecisionProcess):
+        def __init__(self, tb):
+            self.tb = tb
+            self.discount_rate = tb["gamma"]
+
+        def next_state_dist(self, s, a):
+            return self.tb["trans"][(s, a)]
+
+        def reward(self, s, a, ns):
+            tb = self.tb
+            return tb["rconst"] if tb["rconst"] is not None else tb["rew"].get((s, a, ns), 0.0)
+
+        def actions(self, s):
+            self.tb["log"].append(self.tb["sid"][s])
+            return self.tb["acts"][s]
+
+        def initial_state_dist(self):
+            return self.tb["init"]
+
+        def is_absorbing(self, s):
+            return self.tb["absb"][s]
+    _TABLE_CLS.append(TableMDP)
+    return TableMDP
+
+
+def native_dist(d):
+    """the same distribution as msdm's Deterministic / Uniform class when it has that shape"""
+    from msdm.core.distributions import DictDistribution
+    from msdm.core.distributions.dictdistribution import DeterministicDistribution, UniformDistribution
+    items = list(d.items())
+    if len(items) == 1 and items[0][1] == 1.0:
+        return DeterministicDistribution(items[0][0])
+    if len(items) in (2, 4, 8) and all(p == 1.0 / len(items) for _, p in items):
+        return UniformDistribution([e for e, _ in items])
+    return d
 
 
 def one(case, pl):
@@ -105,61 +157,57 @@ def one(case, pl):
     for k, r in c["reward"].items():
         s, a, ns = map(int, k.split(","))
         rew[(S[s], A[a], S[ns])] = fl(r)
-    acts = {S[s]: tuple(A[a] for a in al) for s, al in enumerate(c["actions"])}
+    seq = list if case.get("actions_as_list") else tuple
+    acts = {S[s]: seq(A[a] for a in al) for s, al in enumerate(c["actions"])}
     absb = {S[s]: bool(x) for s, x in enumerate(c["absorbing"])}
     init = DictDistribution({S[s]: fl(p) for s, p in c["init"]})
     gamma = int(Fraction(c["gamma"])) if case.get("gamma_int") else fl(c["gamma"])
+    if case.get("dist_repr") == "native":
+        trans = {k: native_dist(d) for k, d in trans.items()}
+        init = native_dist(init)
     log = []
+    tb = {"trans": trans, "rew": rew, "rconst": fl(rconst) if rconst is not None else None, "acts": acts,
+          "absb": absb, "init": init, "gamma": gamma, "log": log, "sid": sid}
 
-    class TableMDP(TabularMarkovDecisionProcess):
-        def __init__(self):
-            self.discount_rate = gamma
-
-        def next_state_dist(self, s, a):
-            return trans[(s, a)]
-
-        def reward(self, s, a, ns):
-            return fl(rconst) if rconst is not None else rew.get((s, a, ns), 0.0)
-
-        def actions(self, s):
-            log.append(sid[s])
-            return acts[s]
-
-        def initial_state_dist(self):
-            return init
-
-        def is_absorbing(self, s):
-            return absb[s]
+    TableMDP = get_table_mdp_class()
 
     def mk():
-        m = TableMDP()
+        m = TableMDP(tb)
+        eseq = list if case.get("explicit_as_list") else tuple
         if case.get("explicit_states") is not None:
-            m._state_list = tuple(S[i] for i in case["explicit_states"])
+            m._state_list = eseq(S[i] for i in case["explicit_states"])
         if case.get("explicit_actions") is not None:
-            m._action_list = tuple(A[i] for i in case["explicit_actions"])
+            m._action_list = eseq(A[i] for i in case["explicit_actions"])
         return m
 
     res = {}
     mdp = mk()
     # reachability first (cached under the same key state_list uses), with pop order
     runs = []
-    for k in [None] + list(case.get("cutoffs", [])):
+    for k in case.get("reach_order") or ([None] + list(case.get("cutoffs", []))):
         del log[:]
         try:
-            r = mdp.reachable_states() if k is None else mdp.reachable_states(max_states=k)
-            runs.append({"max": k, "result": sorted(sid[s] for s in r), "size": len(r), "trace": list(log),
-                         "type": type(r).__name__})
+            kk = float(k) if (k is not None and case.get("cutoff_float")) else k
+            r = mdp.reachable_states() if k is None else mdp.reachable_states(max_states=kk)
+            run = {"max": k, "result": sorted(sid[s] for s in r), "size": len(r), "trace": list(log),
+                   "type": type(r).__name__}
+            # second call with the same argument (cache hit) must give the same set
+            r2 = mdp.reachable_states() if k is None else mdp.reachable_states(max_states=kk)
+            run["again"] = sorted(sid[s] for s in r2)
+            runs.append(run)
         except BaseException as e:
             if isinstance(e, (KeyboardInterrupt, SystemExit)):
                 raise
             runs.append(dict(err(e), max=k))
     res["reach"] = runs
     res["orig"] = view(mdp, sid, aid)
+    res["orig_again"] = view(mdp, sid, aid)        # every cached view read a second time
 
     # rebuild from the arrays
     def rebuild():
         m2 = TabularMarkovDecisionProcess.from_matrices(
-            state_list=mdp.state_list, action_list=mdp.action_list,
+            state_list={"list": list, "tuple": tuple}.get(case.get("fm_lists"), lambda x: x)(mdp.state_list),
+            action_list={"list": list, "tuple": tuple}.get(case.get("fm_lists"), lambda x: x)(mdp.action_list),
             initial_state_vec=mdp.initial_state_vec, transition_matrix=mdp.transition_matrix,
             action_matrix=mdp.action_matrix, reward_matrix=mdp.reward_matrix,
             absorbing_state_vec=mdp.absorbing_state_vec, discount_rate=mdp.discount_rate)
@@ -183,7 +231,7 @@ def one(case, pl):
         res["rebuilt"]["funcs"] = guarded(funcs)
 
     # quick constructors wrapping the five functions (fresh un-instrumented source object)
-    src = TableMDP()
+    src = TableMDP(dict(tb, log=[]))
     def quick_tab():
         return QuickTabularMDP(next_state_dist=src.next_state_dist, reward=src.reward, actions=src.actions,
                                initial_state_dist=src.initial_state_dist, is_absorbing=src.is_absorbing,
@@ -192,6 +240,13 @@ def one(case, pl):
     res["quick"] = mq if isinstance(mq, dict) else view(mq, sid, aid, tables=False)
     if not isinstance(mq, dict):
         res["quick"]["reach"] = guarded(lambda: sorted(sid[s] for s in mq.reachable_states()))
+    # ... and wrapping the functions of the object whose cached views were all touched above
+    def quick_used():
+        return QuickTabularMDP(next_state_dist=mdp.next_state_dist, reward=mdp.reward, actions=mdp.actions,
+                               initial_state_dist=mdp.initial_state_dist, is_absorbing=mdp.is_absorbing,
+                               discount_rate=mdp.discount_rate)
+    mu = guarded(quick_used)
+    res["quick_used"] = mu if isinstance(mu, dict) else view(mu, sid, aid, tables=False)
 
     # constant / deterministic variants of the quick constructor
     qv = case.get("qv")
@@ -199,13 +254,13 @@ def one(case, pl):
         def quick_var():
             kw = {}
             if qv.get("det"):
-                kw["next_state"] = lambda s, a: next(iter(trans[(s, a)].keys()))
+                kw["next_state"] = lambda s, a: next(iter(trans[(s, a)].support))
             else:
                 kw["next_state_dist"] = src.next_state_dist
             kw["reward"] = fl(rconst) if qv.get("const_reward") else src.reward
             kw["actions"] = acts[S[0]] if qv.get("const_actions") else src.actions
             if qv.get("init_state"):
-                kw["initial_state"] = next(iter(init.keys()))
+                kw["initial_state"] = next(iter(init.support))
             elif qv.get("init_callable"):
                 kw["initial_state_dist"] = src.initial_state_dist
             else:
@@ -222,17 +277,60 @@ def one(case, pl):
                       initial_state_dist=init, is_absorbing=src.is_absorbing, discount_rate=src.discount_rate)
         ok = True
         for s in S:
-            ok &= tuple(m3.actions(s)) == acts[s] and bool(m3.is_absorbing(s)) == absb[s]
+            ok &= tuple(m3.actions(s)) == tuple(acts[s]) and bool(m3.is_absorbing(s)) == absb[s]
             for a in acts[s]:
                 d = m3.next_state_dist(s, a)
                 ok &= dict(d.items()) == dict(trans[(s, a)].items())
-                for ns in d.keys():
+                for ns, _ in d.items():
                     ok &= m3.reward(s, a, ns) == src.reward(s, a, ns)
         ok &= dict(m3.initial_state_dist().items()) == dict(init.items())
         return {"funcs_equal": bool(ok), "gamma": fj(m3.discount_rate),
                 "reach": sorted(sid[s] for s in m3.reachable_states()),
                 "has_state_list": hasattr(m3, "state_list")}
     res["quick_plain"] = guarded(quick_plain)
+
+    # QuickMDP's two assertions (error paths) and falsy deterministic arguments
+    def assertions():
+        out = []
+        for kw in ({"initial_state": S[0]}, {"next_state": lambda s, a: s}):
+            try:
+                QuickMDP(reward=0.0, actions=(), is_absorbing=lambda s: False, **kw)
+                out.append("no error")
+            except AssertionError:
+                out.append("AssertionError")
+        return out
+    res["quick_assertions"] = guarded(assertions)
+
+    # tables.py constructors and the lookup error path
+    def table_paths():
+        from msdm.core.mdp.tables import StateTable, StateActionTable, StateActionIndexError
+        sl, al = list(mdp.state_list), list(mdp.action_list)
+        out = {}
+        t1 = StateTable.from_dict({s: float(mdp.initial_state_vec[i]) for i, s in enumerate(sl)})
+        out["state_table_from_dict"] = [fj(t1[s]) for s in sl] == [fj(x) for x in mdp.initial_state_vec] \
+            and list(t1.state_list) == sl
+        t2 = StateTable.from_state_list(mdp.state_list, mdp.initial_state_vec)
+        out["state_table_from_list"] = [fj(t2[s]) for s in sl] == [fj(x) for x in mdp.initial_state_vec]
+        if al:
+            nested = {s: {a: float(mdp.state_action_reward_matrix[i, j]) for j, a in enumerate(al) if mdp.action_matrix[i, j]}
+                      for i, s in enumerate(sl)}
+            t3 = StateActionTable.from_dict(nested, default_value=-7.0)
+            out["state_action_table_from_dict"] = list(t3.state_list) == sl and set(t3.action_list) <= set(al) and all(
+                fj(t3[s][a]) == (fj(mdp.state_action_reward_matrix[i, j]) if mdp.action_matrix[i, j] else fj(-7.0))
+                for i, s in enumerate(sl) for j, a in enumerate(al) if a in t3.action_list)
+        missing = ("no", "such", "state", 1)
+        try:
+            mdp.transition_table[missing]
+            out["missing_key"] = "no error"
+        except StateActionIndexError:
+            out["missing_key"] = "StateActionIndexError"
+        try:
+            StateActionTable.from_state_list(sl, [0.0] * len(sl))
+            out["from_state_list_2d"] = "no error"
+        except NotImplementedError:
+            out["from_state_list_2d"] = "NotImplementedError"
+        return out
+    res["table_paths"] = guarded(table_paths)
 
     # planning on original, rebuilt, wrapped
     vi = case.get("vi")
@@ -242,6 +340,12 @@ def one(case, pl):
             res["plan"]["rebuilt"] = guarded(lambda: plan(m2, sid, aid, vi))
         if not isinstance(mq, dict):
             res["plan"]["quick"] = guarded(lambda: plan(mq, sid, aid, vi))
+        # one planner object reused on the rebuilt MDP and then on the original (same labels)
+        def shared():
+            from msdm.algorithms.valueiteration import ValueIteration
+            pl_ = ValueIteration(max_iterations=int(vi["max_iterations"]), max_residual=fl(vi["max_residual"]))
+            return [guarded(lambda: plan(x, sid, aid, vi, planner=pl_)) for x in ([m2] if not isinstance(m2, dict) else []) + [mdp]]
+        res["plan"]["shared"] = guarded(shared)
     return res
 
 
